@@ -270,6 +270,16 @@ func jobC07(c *rt.Ctx) {
 		if (serr != nil) != wantRefuse {
 			fail("Sign")
 		}
+		// the other spellings of the pre-hash selector: a bare crypto.Hash, Options without a context
+		if _, e := priv.Sign(nil, d, crypto.SHA512); (e != nil) != wantRefuse {
+			fail("Sign(bare crypto.SHA512)")
+		}
+		if _, e := priv.Sign(nil, d, &Options{Hash: crypto.SHA512}); (e != nil) != wantRefuse {
+			fail("Sign(Options{Hash} without context)")
+		}
+		if _, e := priv.Sign(nil, d, &Options{Hash: crypto.SHA512, ZIP215Verify: true}); (e != nil) != wantRefuse {
+			fail("Sign(Options{Hash, ZIP215Verify})")
+		}
 		good, _ := priv.Sign(nil, digest, o)
 		vsig := sig
 		if vsig == nil {
